@@ -748,3 +748,532 @@ Section Retain.
         apply (retain_g_idle pred bump n fu t it' rest (S n) evs (Hnext t Hs eq_refl (fun j _ _ => eq_refl))); lia.
   Qed.
 End Retain.
+
+(* ---------------------------------------------------------------------------------------- *)
+(* Part 2, main theorems                                                                      *)
+(* ---------------------------------------------------------------------------------------- *)
+(* "the closure was called on e, did not panic, and answered b" *)
+Definition says (pred : kv -> option bool) (b : bool) (e : kv) : bool :=
+  match pred e with Some b' => Bool.eqb b' b | None => false end.
+
+Lemma says_true_iff pred b e : says pred b e = true <-> pred e = Some b.
+Proof.
+  unfold says. destruct (pred e) as [b'|]; [|split; discriminate].
+  destruct b', b; cbn [Bool.eqb]; split; congruence.
+Qed.
+
+Lemma first_none_lt_iff pred es : first_none pred es < length es <-> exists e, In e es /\ pred e = None.
+Proof.
+  split.
+  - intros H. destruct (first_none_at pred es H) as (x & Hx & Hp). exists x.
+    split; [exact (nth_error_In _ _ Hx)|exact Hp].
+  - intros (e & He & Hp). pose proof (first_none_le pred es) as Hle.
+    destruct (Nat.eq_dec (first_none pred es) (length es)) as [E|]; [|lia].
+    exfalso. pose proof (first_none_prefix pred es) as HF. rewrite E, firstn_all in HF.
+    rewrite Forall_forall in HF. exact (HF e He Hp).
+Qed.
+
+Lemma filter_total_says_true pred l : Forall (fun e => pred e <> None) l ->
+  filter (total_of true pred) l = filter (says pred true) l.
+Proof.
+  intros H. apply filter_ext_in. rewrite Forall_forall in H. intros e He. specialize (H e He).
+  unfold total_of, says. destruct (pred e) as [[|]|]; try reflexivity. exfalso; apply H; reflexivity.
+Qed.
+
+Lemma filter_total_says_false pred l : Forall (fun e => pred e <> None) l ->
+  filter (fun e => negb (total_of true pred e)) l = filter (says pred false) l.
+Proof.
+  intros H. apply filter_ext_in. rewrite Forall_forall in H. intros e He. specialize (H e He).
+  unfold total_of, says. destruct (pred e) as [[|]|]; reflexivity.
+Qed.
+
+(* where the closure answers, "kept" and "erased" partition the visited elements *)
+Lemma says_partition pred l : Forall (fun e => pred e <> None) l ->
+  Permutation l (filter (says pred true) l ++ filter (says pred false) l).
+Proof.
+  induction 1 as [|e l He _ IH]; [apply Permutation_refl|].
+  cbn [filter]. destruct (pred e) as [b|] eqn:E; [|exfalso; apply He; reflexivity].
+  assert (Et : says pred true e = Bool.eqb b true) by (unfold says; rewrite E; reflexivity).
+  assert (Ef : says pred false e = Bool.eqb b false) by (unfold says; rewrite E; reflexivity).
+  rewrite Et, Ef. destruct b; cbn [Bool.eqb app].
+  - apply perm_skip. exact IH.
+  - apply Permutation_cons_app. exact IH.
+Qed.
+
+Section RetainMain.
+  Variable B : backend.
+  Hypothesis HW : WidthOK B.
+  Hypothesis HB : BackendSpec B.
+  Variable needs_drop : bool.
+
+  Local Notation SAFE := (SafeWF B kv).
+
+  (* every FULL bucket holds one element *)
+  Lemma elems_length t P : SAFE t ->
+    (forall x, In x P -> x < nb kv t /\ is_full (byte kv t x) = true) -> length (elems t P) = length P.
+  Proof.
+    intros Hs. induction P as [|x rest IH]; intros H; [reflexivity|].
+    destruct (H x (or_introl eq_refl)) as (Hx & Hfx).
+    assert (Hm : mask t <> 0).
+    { intros E. pose proof (singleton_eq B t Hs E) as Et. rewrite Et in Hx, Hfx.
+      rewrite (new_table_bytes_empty B kv HW x Hx) in Hfx. rewrite is_full_EMPTY in Hfx. discriminate Hfx. }
+    destruct (full_slot_ref B t x Hs Hm Hx Hfx) as (e & He & _).
+    rewrite (elems_cons t x rest e He). cbn [length]. f_equal.
+    apply IH. intros y Hy. apply H. right. exact Hy.
+  Qed.
+
+  (* what the loop leaves, and what it drops, when the closure panics at position c of the
+     iteration order es: the elements before c on which the closure said `true` stay with their
+     value bumped, those on which it said `false` are erased (and dropped, with the value
+     bumped: the closure had already written through its &mut V); the element at c and
+     everything behind it is untouched *)
+  Definition retain_kept (pred : kv -> option bool) (bump : Z) (es : list kv) : list kv :=
+    map (bumpv bump) (filter (says pred true) (firstn (first_none pred es) es)) ++ skipn (first_none pred es) es.
+
+  Definition retain_dropped (pred : kv -> option bool) (bump : Z) (es : list kv) : list kv :=
+    map (bumpv bump) (filter (says pred false) (firstn (first_none pred es) es)).
+
+  Section WithQ.
+    Variable Q : table kv -> Prop.
+    Hypothesis Q_write : forall t i e v t', SAFE t -> Q t -> mask t <> 0 -> i < nb kv t ->
+      slot kv t i = Some e -> slot_write kv t i (upd_val e v) = Ok t' -> Q t'.
+    Hypothesis Q_remove : forall t i e t', SAFE t -> Q t -> mask t <> 0 -> i < nb kv t ->
+      is_full (byte kv t i) = true -> Raw.remove B kv t i = Ok (e, t') -> Q t'.
+
+    Lemma retain_panic_gen t pred bump : SAFE t -> Q t ->
+      exists t',
+        m_retain_p B needs_drop t pred bump =
+          Ok (t', (if first_none pred (occupants kv t) <? length (occupants kv t) then OutUnwind else OutUnit),
+              ev_drops needs_drop (retain_dropped pred bump (occupants kv t))) /\
+        SAFE t' /\ Q t' /\ mask t' = mask t /\
+        Permutation (occupants kv t') (retain_kept pred bump (occupants kv t)).
+    Proof.
+      intros Hs HQ.
+      destruct (LoopInv_init B HW HB t Hs) as (it & En & HI).
+      assert (Hlen : length (full_list t) < S (buckets kv t)).
+      { pose proof (full_list_le kv t). unfold nb in *. lia. }
+      unfold m_retain_p. rewrite En. cbn [bind].
+      destruct (retain_p_is_cut B HW HB needs_drop pred bump _ t it (full_list t) 0 [] HI Hlen)
+        as (t1 & evs1 & E1 & E2).
+      rewrite E1. cbn [bind].
+      assert (Hocc0 : Permutation (occupants kv t) ([] ++ elems t (full_list t))).
+      { cbn [app]. rewrite (elems_full B HW t Hs). apply Permutation_refl. }
+      destruct (retain_g_ok B HW HB needs_drop Q Q_write Q_remove
+                  (cut_closure pred bump (0 + first_none pred (elems t (full_list t))))
+                  _ t it (full_list t) 0 [] [] HI Hlen HQ Hocc0)
+        as (t2 & E3 & Hs2 & HQ2 & Em2 & Hp2).
+      rewrite E2 in E3. injection E3 as <- ->.
+      assert (Hl : length (full_list t) = length (occupants kv t)).
+      { rewrite <- (elems_full B HW t Hs). symmetry. apply elems_length; [exact Hs|].
+        destruct HI as (_ & _ & _ & Hf). exact Hf. }
+      rewrite kept_cut in Hp2.
+      pose proof (dropped_cut pred bump (elems t (full_list t)) 0 (first_none pred (elems t (full_list t)))) as Hd.
+      cbn [Nat.add] in Hd. rewrite Hd. clear Hd. rewrite Hl.
+      rewrite (elems_full B HW t Hs) in *. cbn [app] in *.
+      pose proof (first_none_prefix pred (occupants kv t)) as Hpre.
+      rewrite (filter_total_says_true pred _ Hpre) in Hp2.
+      rewrite (filter_total_says_false pred _ Hpre).
+      exists t1. split; [reflexivity|]. split; [exact Hs2|]. split; [exact HQ2|]. split; [exact Em2|exact Hp2].
+    Qed.
+  End WithQ.
+
+  (* the accounting is a partition of the old contents: every element is kept, or dropped
+     (once), or was not reached *)
+  Lemma retain_accounting pred (es : list kv) :
+    Permutation es (filter (says pred true) (firstn (first_none pred es) es) ++
+                    filter (says pred false) (firstn (first_none pred es) es) ++
+                    skipn (first_none pred es) es).
+  Proof.
+    rewrite app_assoc. rewrite <- (firstn_skipn (first_none pred es) es) at 1.
+    apply Permutation_app_tail. apply says_partition. apply first_none_prefix.
+  Qed.
+
+  (* R1: retain with a panicking closure, on a table that satisfies the safety invariant *)
+  Theorem retain_panic_valid t pred bump : SAFE t ->
+    exists t',
+      m_retain_p B needs_drop t pred bump =
+        Ok (t', (if first_none pred (occupants kv t) <? length (occupants kv t) then OutUnwind else OutUnit),
+            ev_drops needs_drop (retain_dropped pred bump (occupants kv t))) /\
+      SAFE t' /\ mask t' = mask t /\
+      (forall tsize talign, TOwn B kv tsize talign t -> TOwn B kv tsize talign t') /\
+      Permutation (occupants kv t') (retain_kept pred bump (occupants kv t)) /\
+      (first_none pred (occupants kv t) < length (occupants kv t) <->
+       exists e, In e (occupants kv t) /\ pred e = None).
+  Proof.
+    intros Hs.
+    destruct (retain_panic_gen (fun _ => True) (fun _ _ _ _ _ _ _ _ _ _ _ => I) (fun _ _ _ _ _ _ _ _ _ _ => I)
+                t pred bump Hs I) as (t' & E & Hs' & _ & Em & Hp).
+    exists t'. split; [exact E|]. split; [exact Hs'|]. split; [exact Em|].
+    split; [intros tsize talign; exact (TOwn_same_mask B kv tsize talign t t' Em)|].
+    split; [exact Hp|apply first_none_lt_iff].
+  Qed.
+
+  (* R2: the same for the full invariant, for any hash function of the key (it need not be
+     total: retain never hashes) *)
+  Theorem retain_panic_valid_WF (hash_of : Z -> option Z) t pred bump : WF B kv (hasher hash_of) t ->
+    exists t',
+      m_retain_p B needs_drop t pred bump =
+        Ok (t', (if first_none pred (occupants kv t) <? length (occupants kv t) then OutUnwind else OutUnit),
+            ev_drops needs_drop (retain_dropped pred bump (occupants kv t))) /\
+      WF B kv (hasher hash_of) t' /\ mask t' = mask t /\
+      (forall tsize talign, TOwn B kv tsize talign t -> TOwn B kv tsize talign t') /\
+      Permutation (occupants kv t') (retain_kept pred bump (occupants kv t)) /\
+      (first_none pred (occupants kv t) < length (occupants kv t) <->
+       exists e, In e (occupants kv t) /\ pred e = None).
+  Proof.
+    intros HWF. pose proof HWF as (Hs & _).
+    destruct (retain_panic_gen (WF B kv (hasher hash_of))) with (t := t) (pred := pred) (bump := bump)
+      as (t' & E & Hs' & HWF' & Em & Hp); [| |exact Hs|exact HWF|].
+    - intros t0 i e v t0' _ HWF0 Hm Hi He Ew.
+      destruct (slot_write_WF B kv (hasher hash_of) t0 i e (upd_val e v) HWF0 Hm Hi He eq_refl)
+        as (t1 & Ew1 & HWF1 & _).
+      rewrite Ew in Ew1. injection Ew1 as <-. exact HWF1.
+    - intros t0 i e t0' _ HWF0 Hm Hi Hf Er.
+      destruct (remove_WF B kv HW HB (hasher hash_of) t0 i HWF0 Hm Hi Hf) as (e1 & t1 & Er1 & HWF1 & _).
+      rewrite Er in Er1. injection Er1 as <- <-. exact HWF1.
+    - exists t'. split; [exact E|]. split; [exact HWF'|]. split; [exact Em|].
+      split; [intros tsize talign; exact (TOwn_same_mask B kv tsize talign t t' Em)|].
+      split; [exact Hp|apply first_none_lt_iff].
+  Qed.
+
+  (* when the closure never panics the loop is HashMap::retain of Model/Map.v: nothing unwinds,
+     every element was visited *)
+  Lemma retain_no_panic pred (es : list kv) : (forall e, In e es -> pred e <> None) ->
+    (first_none pred es <? length es) = false /\ firstn (first_none pred es) es = es /\ skipn (first_none pred es) es = [].
+  Proof.
+    intros H. rewrite (first_none_total pred es H).
+    split; [apply Nat.ltb_irrefl|]. split; [apply firstn_all|apply skipn_all].
+  Qed.
+End RetainMain.
+
+(* ---------------------------------------------------------------------------------------- *)
+(* Part 3: extract_if                                                                         *)
+(* ---------------------------------------------------------------------------------------- *)
+(* What `extract_if(sel).take(n)` does to the elements es it would visit (iteration order), when
+   sel may panic: the elements yielded (moved out), the elements left in the table, and whether
+   a call of the closure panicked.  The closure only reads: nothing is modified in place. *)
+Fixpoint ext_taken (sel : kv -> option bool) (es : list kv) (n : nat) : list kv :=
+  match es, n with
+  | e :: r, S n' =>
+      match sel e with
+      | Some true => e :: ext_taken sel r n'
+      | Some false => ext_taken sel r n
+      | None => []
+      end
+  | _, _ => []
+  end.
+
+Fixpoint ext_left (sel : kv -> option bool) (es : list kv) (n : nat) : list kv :=
+  match es, n with
+  | e :: r, S n' =>
+      match sel e with
+      | Some true => ext_left sel r n'
+      | Some false => e :: ext_left sel r n
+      | None => e :: r
+      end
+  | _, _ => es
+  end.
+
+Fixpoint ext_unw (sel : kv -> option bool) (es : list kv) (n : nat) : bool :=
+  match es, n with
+  | e :: r, S n' =>
+      match sel e with
+      | Some true => ext_unw sel r n'
+      | Some false => ext_unw sel r n
+      | None => true
+      end
+  | _, _ => false
+  end.
+
+Lemma ext_taken_0 sel es : ext_taken sel es 0 = [].
+Proof. destruct es; reflexivity. Qed.
+Lemma ext_left_0 sel es : ext_left sel es 0 = es.
+Proof. destruct es; reflexivity. Qed.
+Lemma ext_unw_0 sel es : ext_unw sel es 0 = false.
+Proof. destruct es; reflexivity. Qed.
+
+(* every element is yielded or left, exactly once *)
+Lemma ext_partition sel : forall es n, Permutation es (ext_taken sel es n ++ ext_left sel es n).
+Proof.
+  induction es as [|e r IH]; intros n; [destruct n; apply Permutation_refl|].
+  destruct n as [|n]; [apply Permutation_refl|].
+  cbn [ext_taken ext_left]. destruct (sel e) as [[|]|].
+  - cbn [app]. apply perm_skip. apply IH.
+  - apply Permutation_cons_app. apply IH.
+  - apply Permutation_refl.
+Qed.
+
+Lemma ext_taken_sel sel : forall es n, Forall (fun e => sel e = Some true) (ext_taken sel es n).
+Proof.
+  induction es as [|e r IH]; intros n; [destruct n; constructor|].
+  destruct n as [|n]; [constructor|].
+  cbn [ext_taken]. destruct (sel e) as [[|]|] eqn:E; [|apply IH|constructor].
+  constructor; [exact E|apply IH].
+Qed.
+
+Lemma ext_taken_len sel : forall es n, length (ext_taken sel es n) <= n.
+Proof.
+  induction es as [|e r IH]; intros n; [destruct n; cbn [ext_taken length]; lia|].
+  destruct n as [|n]; [cbn [ext_taken length]; lia|].
+  cbn [ext_taken]. destruct (sel e) as [[|]|]; cbn [length].
+  - specialize (IH n). lia.
+  - exact (IH (S n)).
+  - lia.
+Qed.
+
+(* a panic is the panic of the closure on an element that is still stored afterwards *)
+Lemma ext_unw_culprit sel : forall es n, ext_unw sel es n = true ->
+  exists e, In e (ext_left sel es n) /\ sel e = None.
+Proof.
+  induction es as [|e r IH]; intros n H; [destruct n; discriminate H|].
+  destruct n as [|n]; [discriminate H|].
+  cbn [ext_unw ext_left] in *. destruct (sel e) as [[|]|] eqn:E.
+  - exact (IH n H).
+  - destruct (IH (S n) H) as (x & Hx & Hp). exists x. split; [right; exact Hx|exact Hp].
+  - exists e. split; [left; reflexivity|exact E].
+Qed.
+
+(* without a panic the iterator stopped because n elements were taken, or it ran to the end:
+   then nothing selected is left *)
+Lemma ext_done sel : forall es n, ext_unw sel es n = false ->
+  length (ext_taken sel es n) = n \/ Forall (fun e => sel e = Some false) (ext_left sel es n).
+Proof.
+  induction es as [|e r IH]; intros n H; [right; destruct n; constructor|].
+  destruct n as [|n]; [left; reflexivity|].
+  cbn [ext_unw ext_left ext_taken] in *. destruct (sel e) as [[|]|] eqn:E.
+  - destruct (IH n H) as [Hl|Hf]; [left; cbn [length]; lia|right; exact Hf].
+  - destruct (IH (S n) H) as [Hl|Hf]; [left; exact Hl|right; constructor; [exact E|exact Hf]].
+  - discriminate H.
+Qed.
+
+Lemma ext_no_panic sel es n : (forall e, In e es -> sel e <> None) -> ext_unw sel es n = false.
+Proof.
+  intros H. destruct (ext_unw sel es n) eqn:E; [|reflexivity]. exfalso.
+  destruct (ext_unw_culprit sel es n E) as (e & He & Hp). apply (H e); [|exact Hp].
+  apply (Permutation_in e (Permutation_sym (ext_partition sel es n))). apply in_or_app. right. exact He.
+Qed.
+
+Section ExtractIf.
+  Variable B : backend.
+  Hypothesis HW : WidthOK B.
+  Hypothesis HB : BackendSpec B.
+
+  Local Notation SAFE := (SafeWF B kv).
+  Local Notation LINV := (LoopInv B).
+  Local Notation XLOOP := (extract_loop_p B).
+
+  (* the loop with a closure that never panics is Map.extract_loop *)
+  Lemma extract_loop_p_total sel : forall fuel t it n acc evs,
+    XLOOP fuel t it (fun e => Some (existsb (Z.eqb (k_id e)) sel)) n acc evs =
+    match extract_loop B fuel t it sel n acc evs with
+    | Ok (t', acc', evs') => Ok (t', acc', evs', false)
+    | Fail er => Fail er
+    end.
+  Proof.
+    induction fuel as [|fu IH]; intros t it n acc evs.
+    { destruct n; reflexivity. }
+    destruct n as [|n]; [reflexivity|].
+    cbn [extract_loop extract_loop_p].
+    destruct (iter_next B kv t it) as [[[i|] it']|er]; cbn [bind]; try reflexivity.
+    destruct (slot_ref kv t i) as [e|er]; cbn [bind]; [|reflexivity].
+    destruct (existsb (Z.eqb (k_id e)) sel); [|apply IH].
+    destruct (Raw.remove B kv t i) as [[e' t1]|er]; cbn [bind]; [apply IH|reflexivity].
+  Qed.
+
+  Section WithQ.
+    Variable Q : table kv -> Prop.
+    Hypothesis Q_remove : forall t i e t', SAFE t -> Q t -> mask t <> 0 -> i < nb kv t ->
+      is_full (byte kv t i) = true -> Raw.remove B kv t i = Ok (e, t') -> Q t'.
+    Variable sel : kv -> option bool.
+
+    Lemma extract_p_ok : forall fuel t it P n acc evs others,
+      LINV t it P -> length P < fuel -> Q t ->
+      Permutation (occupants kv t) (others ++ elems t P) ->
+      exists t',
+        XLOOP fuel t it sel n acc evs =
+          Ok (t', acc ++ ext_taken sel (elems t P) n, evs ++ map EvMoveOut (ext_taken sel (elems t P) n),
+              ext_unw sel (elems t P) n) /\
+        SAFE t' /\ Q t' /\ mask t' = mask t /\
+        Permutation (occupants kv t') (others ++ ext_left sel (elems t P) n).
+    Proof.
+      induction fuel as [|fu IH]; intros t it P n acc evs others HI Hlen HQ Hocc; [lia|].
+      destruct n as [|n].
+      { cbn [extract_loop_p]. rewrite ext_taken_0, ext_left_0, ext_unw_0. cbn [map]. rewrite !app_nil_r.
+        exists t. destruct HI as (Hs & _). split; [reflexivity|]. split; [exact Hs|]. split; [exact HQ|].
+        split; [reflexivity|exact Hocc]. }
+      cbn [extract_loop_p]. destruct P as [|x rest].
+      - rewrite (LoopInv_nil B t it HI). cbn [bind]. exists t. destruct HI as (Hs & _).
+        unfold elems in *. cbn [flat_map ext_taken ext_left ext_unw map] in *. rewrite !app_nil_r in *.
+        split; [reflexivity|]. split; [exact Hs|]. split; [exact HQ|]. split; [reflexivity|].
+        exact Hocc.
+      - destruct (LoopInv_step B HW HB t it x rest HI) as (it' & En & Hx & Hfx & Hm & Hnext).
+        rewrite En. cbn [bind]. pose proof HI as (Hs & _).
+        destruct (full_slot_ref B t x Hs Hm Hx Hfx) as (e & He & Eref). rewrite Eref. cbn [bind].
+        rewrite (elems_cons t x rest e He) in *. cbn [ext_taken ext_left ext_unw].
+        cbn [length] in Hlen.
+        destruct (sel e) as [[|]|] eqn:Esel.
+        + destruct (remove_safe B kv HW t x Hs Hm Hx Hfx)
+            as (e2 & t2 & Er & He2 & Hs2 & Em2 & _ & _ & _ & Hb2 & Hperm2 & _).
+          rewrite He in He2. injection He2 as <-.
+          rewrite Er. cbn [bind].
+          assert (HQ2 : Q t2) by exact (Q_remove t x e t2 Hs HQ Hm Hx Hfx Er).
+          assert (HI2 : LINV t2 it' rest).
+          { apply (Hnext t2 Hs2 Em2). intros j Hj Hne. exact (proj1 (Hb2 j Hj Hne)). }
+          assert (Erest2 : elems t2 rest = elems t rest).
+          { apply elems_ext. intros j Hj. destruct (loop_rest_lt B t it x rest j HI Hj) as (Hj1 & Hj2).
+            exact (proj2 (Hb2 j Hj1 Hj2)). }
+          assert (K2 : Permutation (occupants kv t2) (others ++ elems t2 rest)).
+          { rewrite Erest2. apply (Permutation_cons_inv (a := e)).
+            etransitivity; [symmetry; exact Hperm2|]. etransitivity; [exact Hocc|].
+            symmetry. apply Permutation_middle. }
+          destruct (IH t2 it' rest n (acc ++ [e]) (evs ++ [EvMoveOut e]) others HI2 ltac:(lia) HQ2 K2)
+            as (t' & E & Hs' & HQ' & Em' & Hp').
+          exists t'. rewrite Erest2 in E, Hp'.
+          split; [|split; [exact Hs'|split; [exact HQ'|split; [congruence|exact Hp']]]].
+          rewrite E. cbn [map]. rewrite <- !app_assoc. reflexivity.
+        + destruct (IH t it' rest (S n) acc evs (others ++ [e])
+                      (Hnext t Hs eq_refl (fun j _ _ => eq_refl)) ltac:(lia) HQ
+                      ltac:(rewrite <- app_assoc; exact Hocc))
+            as (t' & E & Hs' & HQ' & Em' & Hp').
+          exists t'. split; [exact E|]. split; [exact Hs'|]. split; [exact HQ'|]. split; [exact Em'|].
+          rewrite <- app_assoc in Hp'. exact Hp'.
+        + exists t. cbn [map]. rewrite !app_nil_r.
+          split; [reflexivity|]. split; [exact Hs|]. split; [exact HQ|]. split; [reflexivity|exact Hocc].
+    Qed.
+
+    Lemma extract_panic_gen t n : SAFE t -> Q t ->
+      exists it t',
+        iter_new B kv t = Ok it /\
+        XLOOP (S (buckets kv t)) t it sel n [] [] =
+          Ok (t', ext_taken sel (occupants kv t) n, map EvMoveOut (ext_taken sel (occupants kv t) n),
+              ext_unw sel (occupants kv t) n) /\
+        SAFE t' /\ Q t' /\ mask t' = mask t /\
+        Permutation (occupants kv t') (ext_left sel (occupants kv t) n).
+    Proof.
+      intros Hs HQ.
+      destruct (LoopInv_init B HW HB t Hs) as (it & En & HI).
+      assert (Hlen : length (full_list t) < S (buckets kv t)).
+      { pose proof (full_list_le kv t). unfold nb in *. lia. }
+      assert (Hocc0 : Permutation (occupants kv t) ([] ++ elems t (full_list t))).
+      { cbn [app]. rewrite (elems_full B HW t Hs). apply Permutation_refl. }
+      destruct (extract_p_ok _ t it (full_list t) n [] [] [] HI Hlen HQ Hocc0) as (t' & E & Hs' & HQ' & Em' & Hp').
+      rewrite (elems_full B HW t Hs) in *. cbn [app] in *.
+      exists it, t'. split; [exact En|]. split; [exact E|]. split; [exact Hs'|]. split; [exact HQ'|].
+      split; [exact Em'|exact Hp'].
+    Qed.
+  End WithQ.
+
+  (* X1: extract_if with a panicking closure on a table that satisfies the safety invariant.
+     es = the old contents in iteration order. *)
+  Theorem extract_panic_valid t sel n : SAFE t ->
+    exists it t',
+      iter_new B kv t = Ok it /\
+      extract_loop_p B (S (buckets kv t)) t it sel n [] [] =
+        Ok (t', ext_taken sel (occupants kv t) n, map EvMoveOut (ext_taken sel (occupants kv t) n),
+            ext_unw sel (occupants kv t) n) /\
+      SAFE t' /\ mask t' = mask t /\
+      (forall tsize talign, TOwn B kv tsize talign t -> TOwn B kv tsize talign t') /\
+      Permutation (occupants kv t) (ext_taken sel (occupants kv t) n ++ occupants kv t') /\
+      Forall (fun e => sel e = Some true) (ext_taken sel (occupants kv t) n) /\
+      length (ext_taken sel (occupants kv t) n) <= n /\
+      (ext_unw sel (occupants kv t) n = true -> exists e, In e (occupants kv t') /\ sel e = None) /\
+      (ext_unw sel (occupants kv t) n = false ->
+         length (ext_taken sel (occupants kv t) n) = n \/ Forall (fun e => sel e = Some false) (occupants kv t')).
+  Proof.
+    intros Hs.
+    destruct (extract_panic_gen (fun _ => True) (fun _ _ _ _ _ _ _ _ _ _ => I) sel t n Hs I)
+      as (it & t' & En & E & Hs' & _ & Em & Hp).
+    exists it, t'. split; [exact En|]. split; [exact E|]. split; [exact Hs'|]. split; [exact Em|].
+    split; [intros tsize talign; exact (TOwn_same_mask B kv tsize talign t t' Em)|].
+    split; [|split; [apply ext_taken_sel|split; [apply ext_taken_len|split]]].
+    - etransitivity; [apply (ext_partition sel (occupants kv t) n)|].
+      apply Permutation_app_head. symmetry. exact Hp.
+    - intros Hu. destruct (ext_unw_culprit sel _ n Hu) as (e & He & Hpe). exists e.
+      split; [exact (Permutation_in e (Permutation_sym Hp) He)|exact Hpe].
+    - intros Hu. destruct (ext_done sel _ n Hu) as [Hl|Hf]; [left; exact Hl|right].
+      exact (Forall_perm _ _ _ (Permutation_sym Hp) Hf).
+  Qed.
+
+  (* X2: the same for the full invariant (any hash function of the key) *)
+  Theorem extract_panic_valid_WF (hash_of : Z -> option Z) t sel n : WF B kv (hasher hash_of) t ->
+    exists it t',
+      iter_new B kv t = Ok it /\
+      extract_loop_p B (S (buckets kv t)) t it sel n [] [] =
+        Ok (t', ext_taken sel (occupants kv t) n, map EvMoveOut (ext_taken sel (occupants kv t) n),
+            ext_unw sel (occupants kv t) n) /\
+      WF B kv (hasher hash_of) t' /\ mask t' = mask t /\
+      (forall tsize talign, TOwn B kv tsize talign t -> TOwn B kv tsize talign t') /\
+      Permutation (occupants kv t) (ext_taken sel (occupants kv t) n ++ occupants kv t').
+  Proof.
+    intros HWF. pose proof HWF as (Hs & _).
+    destruct (extract_panic_gen (WF B kv (hasher hash_of))) with (sel := sel) (t := t) (n := n)
+      as (it & t' & En & E & Hs' & HWF' & Em & Hp); [|exact Hs|exact HWF|].
+    - intros t0 i e t0' _ HWF0 Hm Hi Hf Er.
+      destruct (remove_WF B kv HW HB (hasher hash_of) t0 i HWF0 Hm Hi Hf) as (e1 & t1 & Er1 & HWF1 & _).
+      rewrite Er in Er1. injection Er1 as <- <-. exact HWF1.
+    - exists it, t'. split; [exact En|]. split; [exact E|]. split; [exact HWF'|]. split; [exact Em|].
+      split; [intros tsize talign; exact (TOwn_same_mask B kv tsize talign t t' Em)|].
+      etransitivity; [apply (ext_partition sel (occupants kv t) n)|].
+      apply Permutation_app_head. symmetry. exact Hp.
+  Qed.
+End ExtractIf.
+
+(* ---------------------------------------------------------------------------------------- *)
+(* Non-vacuity: concrete runs (SSE2 backend, 8 buckets, six elements inserted by map_step)    *)
+(* ---------------------------------------------------------------------------------------- *)
+Definition ex_ops : list (map_op * bool) :=
+  [(OpInsert 11 0 100, false); (OpInsert 12 0 200, false); (OpInsert 13 0 300, false);
+   (OpInsert 14 0 400, false); (OpInsert 15 0 500, false); (OpInsert 16 0 600, false)]%Z.
+
+(* the closure panics on key 12 -- the third element visited --, keeps even keys *)
+Definition ex_pred (e : kv) : option bool := if (k_id e =? 12)%Z then None else Some (Z.even (k_id e)).
+
+(* retain: 16 was visited and kept (value bumped), 11 was visited, erased and dropped (value
+   bumped), the closure panicked on 12: 12, 13, 14, 15 are untouched; the table is valid *)
+Example retain_panic_example :
+  match run sse2_backend 24 8 true (fun k => Some k) (new_table sse2_backend kv) ex_ops with
+  | Ok t =>
+      occupants kv t = [mkKV 16 0 600; mkKV 11 0 100; mkKV 12 0 200; mkKV 13 0 300; mkKV 14 0 400; mkKV 15 0 500] /\
+      first_none ex_pred (occupants kv t) = 2 /\
+      match m_retain_p sse2_backend true t ex_pred 5 with
+      | Ok (t', o, evs) =>
+          o = OutUnwind /\ evs = [EvDrop (mkKV 11 0 105)] /\
+          occupants kv t' = [mkKV 16 0 605; mkKV 12 0 200; mkKV 13 0 300; mkKV 14 0 400; mkKV 15 0 500] /\
+          safe_wf_check sse2_backend kv t' = true /\
+          wf_check sse2_backend kv (fun e => Some (k_id e)) t' = true /\ items t' = 5%Z
+      | Fail _ => False
+      end
+  | Fail _ => False
+  end.
+Proof. vm_compute. repeat split. Qed.
+
+(* extract_if(...).take(4): 16 is yielded, 11 is skipped, the closure panics on 12 *)
+Example extract_if_panic_example :
+  match run sse2_backend 24 8 true (fun k => Some k) (new_table sse2_backend kv) ex_ops with
+  | Ok t =>
+      match iter_new sse2_backend kv t with
+      | Ok it =>
+          match extract_loop_p sse2_backend (S (buckets kv t)) t it ex_pred 4 [] [] with
+          | Ok (t', acc, evs, unw) =>
+              unw = true /\ acc = [mkKV 16 0 600] /\ evs = [EvMoveOut (mkKV 16 0 600)] /\
+              occupants kv t' = [mkKV 11 0 100; mkKV 12 0 200; mkKV 13 0 300; mkKV 14 0 400; mkKV 15 0 500] /\
+              safe_wf_check sse2_backend kv t' = true /\
+              wf_check sse2_backend kv (fun e => Some (k_id e)) t' = true /\ items t' = 5%Z
+          | Fail _ => False
+          end
+      | Fail _ => False
+      end
+  | Fail _ => False
+  end.
+Proof. vm_compute. repeat split. Qed.
+
+Print Assumptions find_panicky_total.
+Print Assumptions foi_panicky_total.
+Print Assumptions find_or_find_insert_slot_c_spec.
+Print Assumptions insert_eq_panic_state.
+Print Assumptions retain_panic_valid.
+Print Assumptions retain_panic_valid_WF.
+Print Assumptions extract_panic_valid.
+Print Assumptions extract_panic_valid_WF.
+Print Assumptions retain_panic_example.
+Print Assumptions extract_if_panic_example.
